@@ -82,6 +82,9 @@ def run_shard(ctx: Ctx, acc: Acc):
             tree = ("and", (tree, ("ext", r.choice(["dn", "DN"]), None, b"v", r.random() < 0.5)))
         rd = gf.Render(r, decoration=r.random() < 0.7)
         text = rd.sentence(tree)
+        if len(text) > 300_000:  # deep x wide x long values multiply; cost for big inputs is C18's subject, not a parse verdict
+            acc.count("skipped-oversize-sentence")
+            continue
         acc.case()
         try:
             ref = rfc4515.parse(text, decoration=True, strict_values=True)
